@@ -23,10 +23,13 @@ import (
 	"math/rand"
 	"reflect"
 	"sort"
+	"strconv"
 	"strings"
+	"sync"
 	"time"
 
 	"github.com/alicebob/miniredis/v2"
+	"github.com/alicebob/miniredis/v2/server"
 	red "github.com/go-redis/redis/v8"
 	"github.com/gotid/god/lib/breaker"
 	"github.com/gotid/god/lib/store/cache"
@@ -246,6 +249,114 @@ type c12World struct {
 	cli    *red.Client            // raw go-redis on B
 	admin  []*red.Client          // harness-only clients on the A servers (SCRIPT FLUSH between histories)
 	ccli   *red.ClusterClient     // go-redis cluster client on B: the reference for Type=cluster histories
+
+	// wire oracle: every command (name + arguments) that reaches a server, recorded
+	// through miniredis' PreHook, side A (all shards, arrival order) and side B
+	wmu   sync.Mutex
+	wireA [][]string
+	wireB [][]string
+}
+
+// c12Housekeeping: connection set-up / topology traffic of the clients, not part of any call.
+var c12Housekeeping = map[string]bool{"HELLO": true, "AUTH": true, "SELECT": true, "CLIENT": true, "COMMAND": true, "CLUSTER": true, "READONLY": true, "READWRITE": true}
+
+func (w *c12World) hook(dst *[][]string) server.Hook {
+	return func(_ *server.Peer, cmd string, args ...string) bool {
+		if !c12Housekeeping[cmd] {
+			w.wmu.Lock()
+			*dst = append(*dst, append([]string{cmd}, args...))
+			w.wmu.Unlock()
+		}
+		return false
+	}
+}
+
+func (w *c12World) wireReset() {
+	w.wmu.Lock()
+	w.wireA, w.wireB = nil, nil
+	w.wmu.Unlock()
+}
+
+func (w *c12World) wireTake() (a, b [][]string) {
+	w.wmu.Lock()
+	a, b = w.wireA, w.wireB
+	w.wireA, w.wireB = nil, nil
+	w.wmu.Unlock()
+	return
+}
+
+// c12WireNorm renders one command for comparison: documented spellings of the same
+// request are normalised numerically (EX s / PX ms, SETEX/PSETEX, EXPIRE/PEXPIRE,
+// EXPIREAT/PEXPIREAT, blocking timeouts 1 / 1.0), and the field/value pairs of
+// HSET/HMSET, which the wrapper takes as a map, are ordered.
+func c12WireNorm(c []string) string {
+	c = append([]string(nil), c...)
+	ms := func(v string, mul float64) string {
+		f, err := strconv.ParseFloat(v, 64)
+		if err != nil {
+			return v
+		}
+		return strconv.FormatFloat(f*mul, 'f', -1, 64)
+	}
+	switch c[0] {
+	case "SET":
+		for i := 3; i+1 < len(c); i++ {
+			switch strings.ToUpper(c[i]) {
+			case "EX":
+				c[i], c[i+1] = "PX", ms(c[i+1], 1000)
+			case "PX":
+				c[i], c[i+1] = "PX", ms(c[i+1], 1)
+			}
+		}
+		for i := 3; i < len(c); i++ {
+			if u := strings.ToUpper(c[i]); u == "NX" || u == "XX" || u == "KEEPTTL" || u == "PX" {
+				c[i] = u
+			}
+		}
+	case "SETEX", "PSETEX":
+		if len(c) == 4 {
+			mul := 1000.0
+			if c[0] == "PSETEX" {
+				mul = 1
+			}
+			c = []string{"SET", c[1], c[3], "PX", ms(c[2], mul)}
+		}
+	case "EXPIRE":
+		if len(c) == 3 {
+			c = []string{"PEXPIRE", c[1], ms(c[2], 1000)}
+		}
+	case "EXPIREAT":
+		if len(c) == 3 {
+			c = []string{"PEXPIREAT", c[1], ms(c[2], 1000)}
+		}
+	case "PEXPIRE", "PEXPIREAT":
+		if len(c) == 3 {
+			c[2] = ms(c[2], 1)
+		}
+	case "BLPOP", "BRPOP":
+		c[len(c)-1] = ms(c[len(c)-1], 1)
+	case "HSET", "HMSET":
+		if len(c) >= 4 && len(c)%2 == 0 {
+			var pairs []string
+			for i := 2; i+1 < len(c); i += 2 {
+				pairs = append(pairs, c[i]+"\x00"+c[i+1])
+			}
+			sort.Strings(pairs)
+			c = c[:2]
+			for _, p := range pairs {
+				c = append(c, strings.SplitN(p, "\x00", 2)...)
+			}
+		}
+	}
+	return fmt.Sprintf("%q", c)
+}
+
+func c12WireStr(cs [][]string) string {
+	parts := make([]string, len(cs))
+	for i, c := range cs {
+		parts[i] = c12WireNorm(c)
+	}
+	return "[" + strings.Join(parts, "; ") + "]"
 }
 
 func c12NewWorld(nShards int) (*c12World, error) {
@@ -260,6 +371,7 @@ func c12NewWorld(nShards int) (*c12World, error) {
 			pw = c12ShardPass
 			s.RequireAuth(pw)
 		}
+		s.Server().SetPreHook(w.hook(&w.wireA))
 		w.shards = append(w.shards, s)
 		w.admin = append(w.admin, red.NewClient(&red.Options{Addr: s.Addr(), Password: pw}))
 	}
@@ -268,6 +380,7 @@ func c12NewWorld(nShards int) (*c12World, error) {
 		return nil, err
 	}
 	w.mrB = b
+	b.Server().SetPreHook(w.hook(&w.wireB))
 	w.cli = red.NewClient(&red.Options{Addr: b.Addr()})
 	w.ccli = red.NewClusterClient(&red.ClusterOptions{Addrs: []string{b.Addr()}})
 	return w, nil
@@ -349,6 +462,11 @@ type c12Entry struct {
 	// prepare, if set, builds the actual call arguments from the generated tuple
 	// (function-valued parameters) and returns the comparison to run afterwards
 	prepare func(x *c12X, a []any) (callArgs []any, finish func(got []any, gotErr error) (ok bool, detail string))
+	// wire, for entries with a custom comparison whose reference side does not issue
+	// the same command (SPop, SRandMember, kv Del): the commands the call must put on
+	// the wire. noWire: no wire comparison (not a command).
+	wire   func(a []any) [][]string
+	noWire bool
 	// classify returns a signature sub-class for a value mismatch (default "value")
 	classify func(a []any, got, want []any) string
 	// blocking: runs wrapper and reference concurrently (both block on the server)
@@ -563,6 +681,7 @@ type c12Hist struct {
 	idx     int
 	prefix  string // signature prefix: "C12:diff" / "C12:kv:diff"
 	eprefix string
+	wprefix string
 	side    *c12Side
 	w       *c12World
 	g       *c12Gen
@@ -656,6 +775,7 @@ func (h *c12Hist) step(e *c12Entry, form c12Form, ctxMode int) bool {
 		opStr += "[ctx deadline expired]"
 	}
 	h.log = append(h.log, opStr)
+	h.w.wireReset()
 
 	var (
 		got     []any
@@ -766,6 +886,23 @@ func (h *c12Hist) step(e *c12Entry, form c12Form, ctxMode int) bool {
 			default:
 				h.st.kinds["result_server_error"]++
 			}
+		}
+	}
+	// on the wire: the wrapper must send what the equivalent go-redis call sends
+	// (same command, same arguments in the same order, same number of commands)
+	if wa, wb := h.w.wireTake(); !e.noWire && !(x.reissued && e.wire != nil) { // (a rejected multi-key kv Del may have sent part of its DELs)
+		if e.wire != nil {
+			if ctx.Err() != nil {
+				wb = nil
+			} else {
+				wb = e.wire(args)
+			}
+		}
+		if sa, sb := c12WireStr(wa), c12WireStr(wb); sa != sb {
+			h.violate(h.wprefix+":"+base, "%s: the wrapper put %s on the wire, the equivalent go-redis call (%s) puts %s", opStr, sa, e.doc, sb)
+		} else {
+			h.st.kinds["wire_streams_compared"]++
+			h.st.kinds["wire_commands_compared"] += int64(len(wa))
 		}
 	}
 	// effect on the server: every key of the alphabet, both sides
